@@ -6,6 +6,7 @@ Direction B: traffic-level histories over long virtual time on the real balancer
 channel sinks and a mock server set; every get/put is an adjust sample observed through the
 published gauges scales.loadbalancer.Aperture.{active,idle,load_average}.
 """
+import os
 import random
 
 from harness import common, tlc
@@ -45,7 +46,7 @@ def _gen_script(rng, idx):
   band = BANDS[idx % 3] if rng.random() < 0.8 else BANDS[0]
   min_size = rng.choice([1, 1, 2, 2, 3])
   max_size = rng.choice([1, 2, 3, 3, 4, 5, 5])
-  members = rng.randint(1, 6)
+  members = rng.choice([0, 1, 2, 2, 3, 3, 4, 4, 5, 5, 6, 6])
   kind = rng.random()
   jitter = 0
   if kind < 0.3:
@@ -118,7 +119,7 @@ def _gen_script(rng, idx):
 
 def cases(prop, tier, seed):
   rng = random.Random(7919 * int(seed) + 6)
-  n = 300 if tier == 'quick' else 6000
+  n = 300 if tier == 'quick' else 2500
   return [_gen_script(rng, i) for i in range(n)]
 
 
@@ -636,7 +637,7 @@ def _gen_impl_script(rng, idx):
   band = BANDS[idx % 3]
   min_size = rng.choice([1, 1, 2, 3])
   max_size = rng.choice([1, 2, 3, 4, 5])
-  members = rng.randint(1, 6)
+  members = rng.choice([0, 1, 2, 3, 3, 4, 4, 5, 6])
   jitter = rng.choice([0, 0, 7, 9])
   live = list(range(1, members + 1))
   gone = [m for m in range(1, 7) if m not in live]
@@ -676,7 +677,7 @@ def replay_behaviours(prop, tier, seed):
   operation in Aperture.tla (ApertureTrace: existential over the abstracted heap order).  Mismatch = DRIFT.
   The same runs are also returned as property-level traces."""
   rng = random.Random(104729 * int(seed) + 66)
-  n = 120 if tier == 'quick' else 2500
+  n = 120 if tier == 'quick' else 800
   scripts = [_gen_impl_script(rng, i) for i in range(n)]
   res = common.run_forked(run_case, scripts, timeout_s=CASE_TIMEOUT)
   errs = [x['err'] for x in res if 'err' in x]
@@ -734,17 +735,21 @@ def models(prop, tier):
   ]
   if tier == 'quick':
     return q
-  return q + [
+  t = q + [
     dict(module='Aperture', cfg='Aperture_q_steady2.cfg', workers=4, what='steady K=3 get-then-put, band (0.5,1.5), max 3'),
-    dict(module='Aperture', cfg='Aperture_t_dynjit.cfg', workers=8, timeout=3000,
-         what='3 endpoints dynamic (2 env events) + jitter, 2 outstanding'),
-    dict(module='Aperture', cfg='Aperture_t_dyn4.cfg', workers=8, timeout=3000,
-         what='4 endpoints, min 2 max 3, band (0.5,1.5), dynamic with Busy/Closed flips'),
     dict(module='Aperture', cfg='Aperture_t_load4.cfg', workers=8, timeout=3000,
-         what='4 members static, min 1 max 3, 4 outstanding, jitter'),
+         what='4 members static, min 1 max 3, 3 outstanding, jitter'),
+    dict(module='Aperture', cfg='Aperture_t_dynjit.cfg', workers=8, timeout=3000,
+         what='3 endpoints dynamic (2 env events) + jitter, 1 outstanding'),
+    dict(module='Aperture', cfg='Aperture_t_dyn4.cfg', workers=8, timeout=3000,
+         what='4 endpoints, min 2 max 3, band (0.5,1.5), dynamic with Busy/Closed flips, 2 outstanding'),
     dict(module='Aperture', cfg='Aperture_t_min2.cfg', workers=8, timeout=3000,
-         what='4 members, min 2 = max 2, band (0.5,1.5), jitter + one env event'),
+         what='4 members, min 2 = max 2, band (0.5,1.5), jitter + one env event, 2 outstanding'),
     dict(module='Aperture', cfg='Aperture_t_steady3.cfg', workers=4, timeout=3000, what='steady K=5, 4 members, min 2 max 3, band (0.5,1.5)'),
     dict(module='Aperture', cfg='Aperture_t_steady4.cfg', workers=4, timeout=3000, what='steady K=5 get-first, 4 members, min 1 max 4'),
-    dict(module='Aperture', cfg='Aperture_t_steady5.cfg', workers=4, timeout=3000, what='steady K=4, 5 members, min 2 max 5'),
   ]
+  if os.environ.get('VERIF_EXTRA'):
+    # larger instances, checked once while building the engine (about 9 and 5 minutes)
+    t += [dict(module='Aperture', cfg='Aperture_x_dynjit2.cfg', workers=8, timeout=6000, what='as t_dynjit with 2 outstanding'),
+          dict(module='Aperture', cfg='Aperture_x_steady5.cfg', workers=4, timeout=6000, what='steady K=4, 5 members, min 2 max 5')]
+  return t
